@@ -70,4 +70,14 @@ end
 so two different byte strings never decode to the same response -/
 theorem z_section_canonical (b : Bytes) (hl : b.length = 640) : polyZPack (polyZUnpack b) = b := Qrl.C13.z_canonical b hl
 
+/-- the whole signature encoding is canonical: an accepted byte string is *the* encoding of its decoded value
+(ordering, no duplicates, counts and zero padding make the hint section injective; z is a bijection) -/
+theorem accepted_is_canonical (sig : Bytes) (hl : sig.length = Gen.Dil.CryptoBytes) (parts : SigParts) (h : unpackSig sig = some parts) :
+    packSig parts.c parts.z parts.h = sig := Qrl.C13.sig_canonical sig hl parts h
+
+/-- hence two different byte strings accepted by the decoder decode to different (c̃, z, h) -/
+theorem decode_injective (s1 s2 : Bytes) (h1 : s1.length = Gen.Dil.CryptoBytes) (h2 : s2.length = Gen.Dil.CryptoBytes)
+    (p : SigParts) (e1 : unpackSig s1 = some p) (e2 : unpackSig s2 = some p) : s1 = s2 := by
+  rw [← accepted_is_canonical s1 h1 p e1, ← accepted_is_canonical s2 h2 p e2]
+
 end Qrl.C05
